@@ -73,7 +73,7 @@ func c07XNodes(items []int) (nodes []*Node, slots []string) {
 	return nodes, slots
 }
 
-const c07ArgVariants = 8
+const c07ArgVariants = 9
 const c07SlotVariants = 4
 
 // c07UseNode builds one component use; idx makes its argument values and slot bodies unique.
@@ -114,6 +114,8 @@ func c07UseNode(u c07Use, idx int, xSlots []string, loopVar string) *Node {
 		n.HasArgs, n.Keys, n.Vals = true, []string{"a", "o"}, []*Expr{eLit(vStr(fmt.Sprintf("t%d", idx))), eLit(vFloat(float64(idx) + 0.5))}
 	case 7: // an argument value that names another argument: it is the caller's variable that counts
 		n.HasArgs, n.Keys, n.Vals = true, []string{"a", "o"}, []*Expr{eVar("v"), eVar("a")}
+	case 8: // the reserved name as an argument
+		n.HasArgs, n.Keys, n.Vals = true, []string{"a", "loop"}, []*Expr{eLit(lit), eLit(vInt(1))}
 	case 6: // falsy argument
 		n.HasArgs, n.Keys, n.Vals = true, []string{"a"}, []*Expr{eLit(vStr(""))}
 	}
@@ -174,6 +176,8 @@ func c07Build(cs c07Case) c07Built {
 				page.Nodes = append(page.Nodes, nText("{"+tag), use, nText("\n"), &Node{K: "if", E: eVar("v"), Body: []*Node{nText("I")}}, nText(" "), &Node{K: "comment", Text: " c "}, nText(tag+"}"))
 			case 3:
 				page.Nodes = append(page.Nodes, nText("{"+tag), use, nText("\n\n"))
+			case 5: // three different pieces of whitespace, split by two comments, and no slot behind them
+				page.Nodes = append(page.Nodes, nText("{"+tag), use, nText(" "), &Node{K: "comment", Text: "a"}, nText("\t"), &Node{K: "comment", Text: "b"}, nText("\n"), nPrint(eVar("v")), nText(tag+"}"))
 			case 4:
 				use.Gap = " {{-- c --}}\n"
 				page.Nodes = append(page.Nodes, nText("{"+tag), use, nText(tag+"}"))
@@ -404,7 +408,7 @@ func c07Run(c *Ctx) {
 							}
 							// white space and comments around a use at top level (components of one item are enough)
 							if pl == 0 && k == 1 && arg < 2 {
-								for gap := 1; gap <= 4; gap++ {
+								for gap := 1; gap <= 5; gap++ {
 									if !do(c07Case{X: x, Uses: []c07Use{{comp, arg, sl, pl}}, Data: 0, Gap: gap}) {
 										return false
 									}
@@ -431,9 +435,9 @@ func c07Run(c *Ctx) {
 				return true
 			}
 			x := append([]int{}, idx...)
-			for a1 := 0; a1 < c07ArgVariants; a1++ {
+			for a1 := 0; a1 < 8; a1++ {
 				for s1 := 0; s1 < c07SlotVariants; s1++ {
-					for a2 := 0; a2 < c07ArgVariants; a2++ {
+					for a2 := 0; a2 < 8; a2++ {
 						for s2 := 0; s2 < c07SlotVariants; s2++ {
 							for pi, pp := range placePairs {
 								if !c.Thorough() && pi >= 3 && (a1+s1+a2+s2)%3 != 0 {
